@@ -301,6 +301,10 @@ TECHNIQUE = ("Coq proofs (induction over the component list; invariants of the b
              "differential correspondence against the real functions under ASan")
 LEVEL_TEXT = ("collapsePath: for every absolute path (any number and length of components) the in-place backward pass returns "
               "a position inside the same buffer holding exactly the forward stack-machine result, bytes before it untouched "
-              "(C18_collapse).")
+              "(C18_collapse). path_search: for every addressed table the three options return exactly the children whose names "
+              "start with the needle, paired with their metadata bytes - in table order / as a sorted permutation / as the sorted "
+              "permutation of the names not below a 'name/' entry, duplicates kept (C18_search_*), and the reply is the C01 "
+              "encoding of those pairs (C18_reply_wellformed). Lookup of walked addresses: computed instances only; in general "
+              "decided by the tie and the Spec oracle on every run (C18_lookup is not proved).")
 LEVEL_NOTE = ("Trusted: Coq kernel, extraction, OCaml driver, harness, generator. The C++ code is modelled by hand "
               "(coq/Ports/PathModel.v, NameModel.v) and related to the model only by the correspondence run.")
